@@ -113,6 +113,49 @@ pub fn write(fields: &[Field]) -> Vec<u8> {
     out
 }
 
+/// A varint spelled with one redundant byte (valid protobuf, not minimal); values that already need ten
+/// bytes are written minimally.
+pub fn write_varint_padded(out: &mut Vec<u8>, x: u64) {
+    let start = out.len();
+    write_varint(out, x);
+    if out.len() - start < 10 {
+        let last = out.len() - 1;
+        out[last] |= 0x80;
+        out.push(0x00);
+    }
+}
+
+/// The same message as `write(fields)` with over-long varints: `values` pads varint field values, `keys` the
+/// field keys, `lens` the length prefixes (at every nesting depth).
+pub fn write_padded(fields: &[Field], values: bool, keys: bool, lens: bool) -> Vec<u8> {
+    let mut out = vec![];
+    let wv = |out: &mut Vec<u8>, x: u64, pad: bool| if pad { write_varint_padded(out, x) } else { write_varint(out, x) };
+    for f in fields {
+        let wt = match &f.val {
+            Val::Varint(_) => 0,
+            Val::I64(_) => 1,
+            Val::I32(_) => 5,
+            Val::Bytes(_) | Val::Msg(_) => 2,
+        };
+        wv(&mut out, ((f.num as u64) << 3) | wt, keys);
+        match &f.val {
+            Val::Varint(x) => wv(&mut out, *x, values),
+            Val::I64(x) => out.extend_from_slice(x),
+            Val::I32(x) => out.extend_from_slice(x),
+            Val::Bytes(x) => {
+                wv(&mut out, x.len() as u64, lens);
+                out.extend_from_slice(x);
+            }
+            Val::Msg(m) => {
+                let inner = write_padded(m, values, keys, lens);
+                wv(&mut out, inner.len() as u64, lens);
+                out.extend_from_slice(&inner);
+            }
+        }
+    }
+    out
+}
+
 pub const INT_ALPHABET: [u64; 9] = [0, 1, 127, 128, (1 << 32) - 1, 1 << 32, (1 << 63) - 1, 1 << 63, u64::MAX];
 
 /// A path to a field inside the tree (indices into successive `Vec<Field>`s).
